@@ -40,7 +40,13 @@ func frame11(payload string, sizes []int, lead, trail string) []byte {
 
 func genDec(t *rapid.T) DecCase {
 	c := DecCase{Version: rapid.SampledFrom([]string{"1.1", "1.1", "1.0"}).Draw(t, "version")}
-	c.Reply = sim.GenReplyOpt(t, rapid.IntRange(101, 120).Draw(t, "id"), "", true, sim.ReplyOpt{CR: true, Big: true})
+	c.Reply = sim.GenReplyOpt(t, rapid.IntRange(101, 120).Draw(t, "id"), "", true, sim.ReplyOpt{CR: true, Big: true, Quotes: true})
+
+	if strings.HasPrefix(c.Reply.Payload, sim.XMLDecl) && rapid.IntRange(0, 3).Draw(t, "otherDeclSpelling") == 0 {
+		// excluded by construction (counted): a declaration spelled differently from the library's
+		// constant is left in the result (known finding decl-other-spelling)
+		ev.Count("decode", "excluded_known:decl-other-spelling", 1)
+	}
 
 	if c.Version == "1.1" {
 		c.Sizes = sim.GenPartition(t, len(c.Reply.Payload))
